@@ -659,6 +659,8 @@ func checkC13(c *Ctx) {
 	checkPooledBytesEscape(c, "R11")
 	c.Rule("R12", "no rewriting without a compression section: the decompression hook is registered only on the non-nil side of a test of the compression configuration")
 	checkDecompressOnlyWhenConfigured(c, "R12")
+	c.Rule("R13", "the filter object, shared by the writer (compress) and the reader goroutine (decompress) of a backend connection, carries no mutable scratch state")
+	checkFilterHasNoScratchState(c, "R13")
 }
 
 // checkCpsHeader: writer builds magic ‖ alg ‖ CRLF; reader tests/strips the same offsets.
@@ -1146,5 +1148,75 @@ func checkDecompressOnlyWhenConfigured(c *Ctx, rule string) {
 	}
 	if n == 0 {
 		c.Unresolved(rule, "no registration of the decompression hook")
+	}
+}
+
+// checkFilterHasNoScratchState (C13.R13): one compress filter serves one backend connection, whose writer goroutine
+// compresses (Filter.Do) while its reader goroutine decompresses (the response hooks). The filter object is therefore
+// shared by two goroutines and must not carry mutable scratch state: no method of the filter stores into a field of the
+// receiver or hands the address of one to a call. (Work buffers come from the pool, per call.)
+func checkFilterHasNoScratchState(c *Ctx, rule string) {
+	p := c.P
+	ft := p.Named(redisPkg, "compressFilter")
+	if ft == nil {
+		c.Unresolved(rule, "compressFilter")
+		return
+	}
+	n, nbad := 0, 0
+	for _, fn := range p.FuncsIn(redisPkg) {
+		if p.isTestFn(fn) {
+			continue
+		}
+		top := topFn(fn)
+		if top.Signature.Recv() == nil || namedOf(deref(top.Signature.Recv().Type())) != ft {
+			continue
+		}
+		n++
+		var recv ssa.Value
+		if len(top.Params) > 0 {
+			recv = top.Params[0]
+		}
+		eachInstr(fn, func(_ *ssa.BasicBlock, _ int, in ssa.Instruction) {
+			fa, ok := in.(*ssa.FieldAddr)
+			if !ok {
+				return
+			}
+			base := fa.X
+			if fv, isFV := base.(*ssa.UnOp); isFV {
+				base = fv.X
+			}
+			isRecv := fa.X == recv
+			if fvv, ok := base.(*ssa.FreeVar); ok && fvv.Name() == "f" {
+				isRecv = true
+			}
+			if !isRecv {
+				return
+			}
+			fld, _ := fieldAddr(fa)
+			for _, r := range *fa.Referrers() {
+				mut := false
+				switch x := r.(type) {
+				case *ssa.Store:
+					mut = x.Addr == ssa.Value(fa)
+				case *ssa.Call:
+					for _, a := range x.Call.Args {
+						if a == ssa.Value(fa) {
+							mut = true
+						}
+					}
+				}
+				if mut {
+					nbad++
+					c.Fail(rule, fmt.Sprintf("%s uses field %s of the shared filter as scratch state (#%d)", fnKey(fn), fld.Name(), nbad), r.Pos(), "a method of the compress filter writes a field of the filter (or hands its address to a call): the filter is used by the connection's writer goroutine (compress) and by its reader goroutine (decompress through the response hooks) at the same time - a shared buffer is overwritten in the middle of a value, the backend is sent bytes of another reply and reads come back different from what was written")
+				}
+			}
+		})
+	}
+	if n == 0 {
+		c.Unresolved(rule, "no method of compressFilter")
+		return
+	}
+	if nbad == 0 {
+		c.OK(rule, "the filter carries no mutable state", token.NoPos, fmt.Sprintf("%d functions of compressFilter examined: none stores into the receiver or passes the address of one of its fields", n))
 	}
 }
